@@ -4,6 +4,7 @@
 From Coq Require Import List NArith ZArith.
 From BLB Require Import Lib.LTS Raft.Core Raft.Wire Raft.NodeElect Raft.NodeMono Raft.NodeLeader Raft.NodeConf Raft.Election Raft.ElectionFixed Raft.ElectionExample Raft.Mechanisms C02.Proofs.
 From BLB Require Import Raft.LogMatchLists Raft.LogMatchNode Raft.LogMatch Raft.Completeness Raft.LogMatchExample Raft.SMSafetyNode Raft.SMSafety Raft.SMSafetyExample Raft.LeaderSuffix Raft.LeaderSuffixExample Raft.CompletenessAck Raft.CompletenessVote Raft.CompletenessExample Raft.SMSafetyBound Raft.CompletenessCommit Raft.CommitExample.
+From BLB Require Import Raft.Snapshots Raft.SnapCommit Raft.SnapSys Raft.SnapshotExample Raft.MembershipQuorum Raft.MembershipElection Raft.MembershipExample Raft.SnapContig Raft.SnapContigMsgs Raft.SnapContigSys.
 Import ListNotations.
 Open Scope N_scope.
 
@@ -467,8 +468,245 @@ Theorem committed_entry_never_truncated_nonvacuous :
 Proof. exact Raft.CommitExample.committed_never_truncated_nonvacuous. Qed.
 Print Assumptions committed_entry_never_truncated_nonvacuous.
 
+(* ---------------------------------------------------------------- round 4: snapshots / compaction *)
+
+(* [PARTIAL] snapshot invariant at node level, for every node state, EVERY event (delivery of any message including InstallSnapshot,
+   tick, proposal, AddNode, RemoveNode, SnapshotDone, restart) and every crash point followed by newCore with the repaired
+   start-up reconciliation: if SnapshotDone reports a snapshot of an applied position (index at most the commit index), a
+   snapshot the node holds never gets ahead of its commit index *)
+Theorem snapshot_within_commit_partial :
+  forall s ev k crashed st s',
+    snle s -> (forall m, ev = ESnapDone m -> sn_index m <= n_commit s) ->
+    run_event_crash (settle s) ev k = Ret (crashed, st, s') -> snle s'.
+Proof. exact snapshot_within_commit. Qed.
+Print Assumptions snapshot_within_commit_partial.
+
+(* [PARTIAL] the same invariant over all schedules of the general system (any message ever sent delivered to any node any number of
+   times or never, ticks, proposals, AddNode, RemoveNode, restarts, crashes after any durable mutation; SnapshotDone reports
+   applied positions): every snapshot any node holds covers only positions up to that node's commit index *)
+Theorem snapshot_covers_only_committed_partial :
+  forall q (σ0 : sys) (sched : list sys_event) (σ : sys),
+    (forall s, In s (sy_nodes σ0) -> snle s) -> run sys sys_event (snstep q) σ0 sched σ ->
+    forall s m, In s (sy_nodes σ) -> p_snap (n_p s) = Some m -> sn_index m <= n_commit s.
+Proof. exact snapshot_within_commit_sys. Qed.
+Print Assumptions snapshot_covers_only_committed_partial.
+
+(* [PARTIAL] leader completeness for the snapshot position, first snapshot of a run: a snapshot taken at an applied position of a node's
+   log (snap_legit) names an entry that every leader of a later term holds at that index with that term; the runs before
+   the snapshot are over the alphabet of leader_completeness *)
+Theorem snapshot_entry_kept_by_later_leaders_partial :
+  forall (bm : list nid) (be : N) (σ0 σ1 σ2 : sys) (sched1 sched2 : list sys_event),
+    cinit σ0 ->
+    run sys sys_event (lstep (length (sy_nodes σ0)) bm be) σ0 sched1 σ1 ->
+    run sys sys_event (lstep (length (sy_nodes σ0)) bm be) σ1 sched2 σ2 ->
+    forall a m, In a (sy_nodes σ1) -> snap_legit a m ->
+    forall b, In b (sy_nodes σ2) -> n_role b = Leader -> p_term (n_p a) < p_term (n_p b) ->
+      exists e, nth_error (p_log (n_p b)) (N.to_nat (sn_index m) - 1) = Some e /\ e_index e = sn_index m /\ e_term e = sn_term m.
+Proof. exact snapshot_of_committed_prefix_kept_by_later_leaders. Qed.
+Print Assumptions snapshot_entry_kept_by_later_leaders_partial.
+
+(* [PARTIAL] mechanism: hasEntry answers yes for every index inside the snapshot without comparing terms - the reason why log matching
+   across snapshots rests on leader completeness *)
+Theorem has_entry_inside_snapshot_mechanism :
+  forall p m i t, p_snap p = Some m -> i <= sn_index m -> has_entry p i t = Ret true.
+Proof. exact has_entry_inside_snapshot. Qed.
+Print Assumptions has_entry_inside_snapshot_mechanism.
+
+(* [PARTIAL] mechanism: when the leader cannot produce the entries for a peer (nextIndex behind its first index) the message it sends is
+   InstallSnapshot carrying exactly its own snapshot index, term and configuration *)
+Theorem install_snapshot_is_own_snapshot_mechanism :
+  forall s p s',
+    get_app_ents s p = Ret None -> send_app_ents s p = Ret s' ->
+    exists m c, p_snap (n_p s) = Some m /\ sn_conf m = Some c /\
+                n_msgs s' = n_msgs s ++ [{| m_term := p_term (n_p s); m_from := n_id s; m_to := pr_id p; m_fromg := 0; m_tog := 0;
+                                            m_epoch := 0; m_body := InstallSnap (sn_index m) (sn_term m) c |}].
+Proof. exact install_snapshot_is_own_snapshot. Qed.
+Print Assumptions install_snapshot_is_own_snapshot_mechanism.
+
+(* [FULL] non-vacuity of the snapshot theorems: a 14-event run of three nodes in which the leader commits two entries, snapshots the
+   applied prefix and trims its log, a follower that has nothing rejects the heartbeat, the leader ships InstallSnapshot and
+   the follower installs it; all hypotheses of snapshot_covers_only_committed_partial hold and the snapshot was legitimate *)
+Theorem install_snapshot_run_nonvacuous :
+  Forall snle (sy_nodes t0) /\ run sys sys_event (snstep 2) t0 snap_sched t14 /\
+  snap_legit (nth 0 (sy_nodes t10) (mk_node 1)) snapm /\
+  m_body u13 = InstallSnap 2 2 {| mb_members := [1; 2; 3]; mb_epoch := 5; mb_index := 1; mb_term := 1 |} /\
+  p_snap (n_p (nth 2 (sy_nodes t14) (mk_node 1))) = Some snapm /\ p_log (n_p (nth 2 (sy_nodes t14) (mk_node 1))) = [] /\
+  n_commit (nth 2 (sy_nodes t14) (mk_node 1)) = 2 /\ Forall snle (sy_nodes t14).
+Proof. exact install_snapshot_run. Qed.
+Print Assumptions install_snapshot_run_nonvacuous.
+
+(* [FULL] non-vacuity of snapshot_within_commit_partial: the installing step of that run satisfies the hypotheses, the event is an
+   InstallSnapshot delivery, the node had no snapshot before and holds one of index 2 with commit index 2 after *)
+Theorem snapshot_within_commit_nonvacuous :
+  exists s ev s' m,
+    snle s /\ (forall m0, ev = ESnapDone m0 -> sn_index m0 <= n_commit s) /\
+    run_event_crash (settle s) ev 0 = Ret (false, 0, s') /\
+    (exists md li lt c, ev = EDeliver md /\ m_body md = InstallSnap li lt c) /\
+    p_snap (n_p s) = None /\ p_snap (n_p s') = Some m /\ sn_index m = 2 /\ n_commit s' = 2.
+Proof. exact Raft.SnapshotExample.snapshot_within_commit_nonvacuous. Qed.
+Print Assumptions snapshot_within_commit_nonvacuous.
+
+(* [PARTIAL] log and snapshot are index-contiguous, node level, for every node state, EVERY event (delivery of any message including
+   InstallSnapshot, tick, proposal, AddNode, RemoveNode, SnapshotDone with any metadata, restart) and every crash point - in
+   particular a crash between the two durable writes of handleSnapshot or of fsmSnapshotDone - followed by newCore with the
+   repaired start-up reconciliation. contig: the physical log has consecutive indices from 1 or above; without a snapshot it
+   is empty or starts at 1; with a snapshot of index i it is empty or starts at most at i+1 and reaches at least i.
+   The only input assumption: the entries of a delivered AppEnts have consecutive indices *)
+Theorem log_snapshot_contiguous_partial :
+  forall s ev k crashed st s',
+    contig (n_p s) -> (forall m, ev = EDeliver m -> mwf m) ->
+    run_event_crash (settle s) ev k = Ret (crashed, st, s') -> contig (n_p s').
+Proof. exact contiguous_step. Qed.
+Print Assumptions log_snapshot_contiguous_partial.
+
+(* [PARTIAL] the output side of that assumption: for every node state, every event and every crash point, every AppEnts the node emits
+   carries entries with consecutive indices *)
+Theorem emitted_app_ents_contiguous_partial :
+  forall s ev k crashed st s',
+    run_event_crash (settle s) ev k = Ret (crashed, st, s') -> Forall mwf (n_msgs s').
+Proof. exact emitted_app_ents_contiguous. Qed.
+Print Assumptions emitted_app_ents_contiguous_partial.
+
+(* [PARTIAL] the two together over ALL schedules of the general system, with no side condition on the schedule (any message ever sent
+   delivered to any node any number of times or never, ticks, proposals, AddNode, RemoveNode, SnapshotDone, restarts,
+   crashes after any durable mutation): every node's log and snapshot stay index-contiguous and every AppEnts in the soup
+   carries consecutive indices *)
+Theorem log_snapshot_contiguous_all_schedules_partial :
+  forall q (σ0 : sys) (sched : list sys_event) (σ : sys),
+    cinv σ0 -> run sys sys_event (sstep q) σ0 sched σ -> cinv σ.
+Proof. exact log_snapshot_contiguous_sys. Qed.
+Print Assumptions log_snapshot_contiguous_all_schedules_partial.
+
+(* [PARTIAL] contig spelled out: neighbouring log entries have neighbouring indices; the first entry has index 1 without a snapshot and
+   at most snapshot index + 1 with one; the last index of the store is at least the snapshot index - so the logical log
+   (positions covered by the snapshot, then the physical log) has no hole *)
+Theorem contiguous_spelled_out :
+  forall p, contig p ->
+    (forall j a b, nth_error (p_log p) j = Some a -> nth_error (p_log p) (S j) = Some b -> e_index b = e_index a + 1) /\
+    (forall a, nth_error (p_log p) 0 = Some a ->
+       1 <= e_index a /\ match p_snap p with None => e_index a = 1 | Some m => e_index a <= sn_index m + 1 end) /\
+    (forall m, p_snap p = Some m -> sn_index m <= last_index p).
+Proof. exact contig_spelled. Qed.
+Print Assumptions contiguous_spelled_out.
+
+(* [FULL] non-vacuity of the contiguity theorems: the InstallSnapshot run extended by one proposal satisfies every hypothesis; at its end
+   the leader holds snapshot (2, 2) plus a physical log with exactly index 3, the follower that installed the snapshot has
+   an empty log, and the soup holds an AppEnts with two entries *)
+Theorem log_snapshot_contiguous_nonvacuous :
+  cinv t0 /\ run sys sys_event (sstep 2) t0 (snap_sched ++ [(1, EPropose [ex_ent], 0)]) t15 /\
+  p_snap (n_p (nth 0 (sy_nodes t15) (mk_node 1))) = Some snapm /\
+  map e_index (p_log (n_p (nth 0 (sy_nodes t15) (mk_node 1)))) = [3] /\
+  p_log (n_p (nth 2 (sy_nodes t15) (mk_node 1))) = [] /\
+  (exists a b c e1 e2, m_body u8 = AppEnts a b c (Some [e1; e2])) /\ In u8 (sy_soup t15) /\
+  cinv t15.
+Proof. exact Raft.SnapshotExample.log_snapshot_contiguous_nonvacuous. Qed.
+Print Assumptions log_snapshot_contiguous_nonvacuous.
+
+(* ---------------------------------------------------------------- round 4: single-server membership change *)
+
+(* [PARTIAL] quorums of Members and Members plus one intersect: for member lists C1 included in C2 with one more element, a majority of C1
+   and a majority of C2 share a node *)
+Theorem adjacent_quorums_intersect :
+  forall (C1 C2 Q1 Q2 : list nid),
+    incl C1 C2 -> length C2 = S (length C1) ->
+    NoDup Q1 -> NoDup Q2 -> incl Q1 C1 -> incl Q2 C2 ->
+    N.of_nat (length C1) / 2 + 1 <= N.of_nat (length Q1) ->
+    N.of_nat (length C2) / 2 + 1 <= N.of_nat (length Q2) ->
+    exists v, In v Q1 /\ In v Q2.
+Proof. exact Raft.MembershipQuorum.adjacent_quorums_intersect. Qed.
+Print Assumptions adjacent_quorums_intersect.
+
+(* [PARTIAL] the same for the configuration AddNode builds (old members with the new one appended) *)
+Theorem add_node_quorums_intersect :
+  forall (c : membership) (x : nid) (Q1 Q2 : list nid),
+    NoDup Q1 -> NoDup Q2 -> incl Q1 (mb_members c) -> incl Q2 (mb_members c ++ [x]) ->
+    quorum c <= N.of_nat (length Q1) ->
+    N.of_nat (length (mb_members c ++ [x])) / 2 + 1 <= N.of_nat (length Q2) ->
+    exists v, In v Q1 /\ In v Q2.
+Proof. exact Raft.MembershipQuorum.add_node_quorums_intersect. Qed.
+Print Assumptions add_node_quorums_intersect.
+
+(* [PARTIAL] the same for the configuration RemoveNode builds (old members with one filtered out) *)
+Theorem remove_node_quorums_intersect :
+  forall (c : membership) (x : nid) (Q1 Q2 : list nid),
+    NoDup (mb_members c) -> In x (mb_members c) ->
+    NoDup Q1 -> NoDup Q2 -> incl Q1 (filter (fun m => negb (m =? x)) (mb_members c)) -> incl Q2 (mb_members c) ->
+    N.of_nat (length (filter (fun m => negb (m =? x)) (mb_members c))) / 2 + 1 <= N.of_nat (length Q1) ->
+    quorum c <= N.of_nat (length Q2) ->
+    exists v, In v Q1 /\ In v Q2.
+Proof. exact Raft.MembershipQuorum.remove_node_quorums_intersect. Qed.
+Print Assumptions remove_node_quorums_intersect.
+
+(* [PARTIAL] one configuration change at a time: an AddNode that goes through was issued with the latest configuration committed and an
+   entry of the leader's current term committed (verifyNopCommitted) *)
+Theorem add_node_accepted_only_when_settled :
+  forall s member rnd s',
+    leader_add_node s member rnd = Ret (E_NONE, s') ->
+    latest_conf_committed s = true /\ exists t, st_term (n_p s) (n_commit s) = Ret (t, true) /\ t = p_term (n_p s).
+Proof. exact Raft.MembershipQuorum.add_node_accepted_only_when_settled. Qed.
+Print Assumptions add_node_accepted_only_when_settled.
+
+(* [PARTIAL] one configuration change at a time: while the latest configuration is not committed AddNode is refused and changes nothing *)
+Theorem add_node_refused_while_pending :
+  forall s member rnd c,
+    verify_nop_committed s = Ret tt -> n_conf s = Some c -> memb member (mb_members c) = false ->
+    latest_conf_committed s = false -> leader_add_node s member rnd = Ret (E_TOO_MANY, s).
+Proof. exact Raft.MembershipQuorum.add_node_refused_while_pending. Qed.
+Print Assumptions add_node_refused_while_pending.
+
+(* [PARTIAL] one configuration change at a time: while the latest configuration is not committed RemoveNode is refused and changes nothing *)
+Theorem remove_node_refused_while_pending :
+  forall s member c,
+    verify_nop_committed s = Ret tt -> n_conf s = Some c -> memb member (mb_members c) = true ->
+    latest_conf_committed s = false -> leader_remove_node s member = Ret (E_TOO_MANY, s).
+Proof. exact Raft.MembershipQuorum.remove_node_refused_while_pending. Qed.
+Print Assumptions remove_node_refused_while_pending.
+
+(* [PARTIAL] election safety across AddNode and RemoveNode for the changes that keep the quorum size: in a system of 2k+1 nodes in which
+   every configuration a node holds has 2k or 2k+1 members, under every schedule (deliveries of any message ever sent to any
+   node any number of times or never, ticks, proposals, AddNode, RemoveNode, snapshots, restarts, crashes after any durable
+   mutation) two nodes recorded as leader of the same term are the same node. OPEN: changes between 2k-1 and 2k members *)
+Theorem election_safety_membership_change_partial :
+  forall k (σ0 σ : sys) (sched : list sys_event),
+    minit k σ0 -> run sys sys_event (mstep k) σ0 sched σ ->
+    forall t a b, In (t, a) (sy_hist σ) -> In (t, b) (sy_hist σ) -> a = b.
+Proof. exact election_safety_near_sys. Qed.
+Print Assumptions election_safety_membership_change_partial.
+
+(* [FULL] non-vacuity of election_safety_membership_change_partial: a 17-event run of three nodes that bootstraps the membership 1, 2,
+   elects node 1, commits an entry of its term, accepts AddNode 3, commits the configuration entry under the new
+   configuration and brings node 3 up to date; every hypothesis holds and a leader is recorded *)
+Theorem add_node_run_nonvacuous :
+  minit 1 a0 /\ run sys sys_event (mstep 1) a0 add_sched a17 /\
+  In (1, EAddNode 3 77, 0) add_sched /\
+  (exists s s', get_node 1 (sy_nodes a10) = Some s /\ members_of s = [1; 2] /\
+                run_event_crash (settle s) (EAddNode 3 77) 0 = Ret (false, E_NONE, s') /\ members_of s' = [1; 2; 3]) /\
+  map members_of (sy_nodes a17) = [[1; 2; 3]; [1; 2; 3]; [1; 2; 3]] /\
+  map (fun s => length (p_log (n_p s))) (sy_nodes a17) = [3; 3; 3]%nat /\
+  map n_commit (sy_nodes a17) = [3; 2; 3] /\ In (2, 1) (sy_hist a17).
+Proof. exact add_node_run. Qed.
+Print Assumptions add_node_run_nonvacuous.
+
+(* [FULL] non-vacuity of adjacent_quorums_intersect: the configurations the leader of that run holds before and after AddNode differ,
+   and every majority of the old one meets every majority of the new one *)
+Theorem add_node_quorums_nonvacuous :
+  exists s s' c c', get_node 1 (sy_nodes a10) = Some s /\ get_node 1 (sy_nodes a11) = Some s' /\
+    n_conf s = Some c /\ n_conf s' = Some c' /\ mb_members c <> mb_members c' /\
+    forall Q1 Q2, NoDup Q1 -> NoDup Q2 -> incl Q1 (mb_members c) -> incl Q2 (mb_members c') ->
+      quorum c <= N.of_nat (length Q1) -> quorum c' <= N.of_nat (length Q2) -> exists x, In x Q1 /\ In x Q2.
+Proof. exact Raft.MembershipExample.add_node_quorums_nonvacuous. Qed.
+Print Assumptions add_node_quorums_nonvacuous.
+
 (* NOT YET PROVED (statements kept visible; listed in props/C02.json not_yet_proved):
-   log_matching, leader_completeness and state_machine_safety across snapshot installation / log trim and across
-   AddNode/RemoveNode (the proved theorems exclude SnapshotDone, AddNode, RemoveNode from the schedule);
-   the extension of election_safety to AddNode/RemoveNode (quorums of Members and Members +/- 1 intersect).
+   log_matching_with_snapshots, leader_completeness_with_snapshots, state_machine_safety_with_snapshots and
+   committed_entry_never_truncated_with_snapshots over logical logs (snapshot-covered committed prefix ++ physical log):
+   with a snapshot hasEntry accepts a previous index without comparing terms, so log matching and leader completeness
+   have to be proved by one mutual induction, over a node-level pass redone with the snapshot cases (the proved pass
+   assumes no snapshot and a log starting at index 1); proved so far, under all events and schedules: a snapshot never
+   gets ahead of the commit index; log + snapshot stay index-contiguous (across the start-up reconciliation too); the
+   entry at a legitimate first snapshot position is held by all later leaders.
+   election_safety_membership_change for the changes between 2k-1 and 2k members (the quorum size changes): needs leader
+   completeness with varying configurations (a candidate holding a stale configuration is stopped only by the up-to-date
+   test) and the invariant that counted votes come from members; hence also the other three clauses across
+   AddNode/RemoveNode. Proved so far: adjacent quorums intersect, one change at a time, the quorum-preserving changes.
    On the real code all four clauses are evaluated after every event by the monitors of the Go simulation. *)
